@@ -16,6 +16,31 @@ open Liftbridge Liftbridge.GoMini Liftbridge.Log
   apply eq_false; omega
 @[simp] theorem cast_succ_sub_one_toNat (n : Nat) : ((n : Int) + 1 - 1).toNat = n := by omega
 
+/-! ### Go's `sort.Search` in the embedding = the literal mirror `goSearch` of the models -/
+
+theorem searchAux_eq (f : Nat → R Bool) (g : Nat → Bool) : ∀ (s i j : Nat), j - i + 1 ≤ s →
+    (∀ k, i ≤ k → k < j → f k = .ok (g k)) → searchAux f s i j = .ok (goSearchAux g i j) := by
+  intro s
+  induction s with
+  | zero => intro i j h; omega
+  | succ s ih =>
+    intro i j hs hf
+    rw [searchAux, goSearchAux]
+    by_cases hij : i < j
+    · have hm : i ≤ (i + j) / 2 ∧ (i + j) / 2 < j := by omega
+      simp only [hij, ↓reduceIte, ↓reduceDIte, hf _ hm.1 hm.2]
+      cases hg : g ((i + j) / 2)
+      · simp only [Bool.false_eq_true, ↓reduceIte]
+        exact ih _ _ (by omega) (fun k h1 h2 => hf k (by omega) h2)
+      · simp only [↓reduceIte]
+        exact ih _ _ (by omega) (fun k h1 h2 => hf k h1 (by omega))
+    · simp [hij]
+
+theorem search_eq (n : Nat) (f : Nat → R Bool) (g : Nat → Bool) (h : ∀ k, k < n → f k = .ok (g k)) :
+    search n f = .ok (goSearch n g) :=
+  searchAux_eq f g (n + 1) 0 n (by omega) (fun k _ hk => h k hk)
+
+
 /-- `*epochOffset` -/
 def encEpoch (e : Nat × Int) : Val := .struct [("leaderEpoch", .int e.1), ("startOffset", .int e.2)]
 /-- `*leaderEpochCache` (the fields the translated functions touch) -/
